@@ -22,8 +22,9 @@ static const int MAXT = 4;
 static Case gen_case() {
     Case c;
     uint64_t nt = pick(1, MAXT);
-    // cfg: threads, channel (0..3 background, 4 foreground), main also logs (0/1), level
-    c.cfg = {nt, pick(0, 4), pick(0, 1), pick(3, 6)};
+    // cfg: threads, logger (0..3 pipeline + background channel, 4 pipeline + foreground channel, 5 no-alloc logger
+    // into a memory stream), main also logs (0/1), level
+    c.cfg = {nt, pick(0, 5), pick(0, 1), pick(3, 6)};
     c.ops = op_list(30, [=] {
         switch (weighted({6, 3, 2})) {
         case 0: return mkop(LINE, {pick(0, nt - 1), pick(1, 6), pick(0, 300)});
@@ -124,7 +125,12 @@ static void run(const Case &c, Ctx &ctx) {
     w.c = &c;
     w.nt = (int)(1 + (c.c(0, 1) + MAXT - 1) % MAXT);
     w.level = (int)(3 + c.c(3) % 4);
-    bool background = c.c(1) % 5 != 4;
+    int kind = (int)(c.c(1) % 6);
+    bool background = kind <= 3;
+    bool noalloc = kind == 5;
+    FILE *mem = nullptr;
+    char *membuf = nullptr;
+    size_t memsz = 0;
     bool main_logs = c.c(2) % 2 == 1;
     for (auto &op : c.ops)
         if (op.kind == WRITER_DELAY) w.delays.push_back(op.arg(0) % 6);
@@ -137,13 +143,19 @@ static void run(const Case &c, Ctx &ctx) {
     ds::Config cfg = dsg::to_config(dsg::find_schedule(c), 80000);
     cfg.max_virtual_ns = 3600ull * 1000000000ull;
     ds::run(cfg, [&] {
-        struct aws_log_formatter_standard_options fo = {AWS_DATE_FORMAT_ISO_8601};
-        if (aws_log_formatter_init_default(&formatter, alloc, &fo) != AWS_OP_SUCCESS) return ctx.note_fail("formatter init");
-        int rc = background ? aws_log_channel_init_background(&channel, alloc, &writer) : aws_log_channel_init_foreground(&channel, alloc, &writer);
-        if (rc != AWS_OP_SUCCESS) return ctx.note_fail("channel init failed");
-        if (background) bg_thread = 1; // first thread created inside the run
-        if (aws_logger_init_from_external(&w.logger, alloc, &formatter, &channel, &writer, (enum aws_log_level)w.level) != AWS_OP_SUCCESS)
-            return ctx.note_fail("logger init failed");
+        if (noalloc) {
+            mem = open_memstream(&membuf, &memsz);
+            struct aws_logger_standard_options lo = {(enum aws_log_level)w.level, nullptr, mem};
+            if (!mem || aws_logger_init_noalloc(&w.logger, alloc, &lo) != AWS_OP_SUCCESS) return ctx.note_fail("no-alloc logger init failed");
+        } else {
+            struct aws_log_formatter_standard_options fo = {AWS_DATE_FORMAT_ISO_8601};
+            if (aws_log_formatter_init_default(&formatter, alloc, &fo) != AWS_OP_SUCCESS) return ctx.note_fail("formatter init");
+            int rc = background ? aws_log_channel_init_background(&channel, alloc, &writer) : aws_log_channel_init_foreground(&channel, alloc, &writer);
+            if (rc != AWS_OP_SUCCESS) return ctx.note_fail("channel init failed");
+            if (background) bg_thread = 1; // first thread created inside the run
+            if (aws_logger_init_from_external(&w.logger, alloc, &formatter, &channel, &writer, (enum aws_log_level)w.level) != AWS_OP_SUCCESS)
+                return ctx.note_fail("logger init failed");
+        }
         aws_logger_set(&w.logger);
         pthread_t th[MAXT];
         Arg args[MAXT];
@@ -157,6 +169,24 @@ static void run(const Case &c, Ctx &ctx) {
         for (int t = 0; t <= w.nt; t++) total += w.sent[t].size();
         w.queued_at_cleanup = total - w.written.size();
         aws_logger_set(nullptr);
+        if (noalloc) {
+            // the no-alloc logger writes each line from the calling thread: everything is in the stream by now
+            fflush(mem);
+            size_t start = 0;
+            for (size_t i = 0; i < memsz; i++)
+                if (membuf[i] == '\n') {
+                    w.written.emplace_back(membuf + start, i + 1 - start);
+                    w.written_on.push_back(-1);
+                    start = i + 1;
+                }
+            if (start != memsz) ctx.note_fail(fmt("the stream ends with %zu bytes that are not newline-terminated", memsz - start));
+            w.cleaned = true;
+            if (w.written.size() != total) ctx.note_fail(fmt("the no-alloc logger wrote %zu lines, %zu were accepted", w.written.size(), total));
+            aws_logger_clean_up(&w.logger);
+            fclose(mem);
+            free(membuf);
+            return;
+        }
         aws_log_channel_clean_up(&channel); // must flush everything already accepted
         w.cleaned = true;
         size_t now_written = w.written.size();
@@ -200,9 +230,9 @@ static void run(const Case &c, Ctx &ctx) {
     PBT_CHECK(galloc::check_all(&m), "%s", m ? m : "");
     PBT_CHECK(galloc::live_blocks() == 0, "%zu blocks leaked (each line string must be destroyed exactly once)", galloc::live_blocks());
     if (w.queued_at_cleanup) ctx.tag("lines_queued_at_cleanup");
-    if (background) ctx.tag("background"); else ctx.tag("foreground");
+    ctx.tag(background ? "background" : noalloc ? "noalloc_logger_threads" : "foreground");
     if (ds::stats().switches >= 6) ctx.tag("switches_ge_6");
-    ctx.nontrivial = background && w.written.size() >= 3 && (w.queued_at_cleanup > 0 || ds::stats().switches >= 6);
+    ctx.nontrivial = (background || noalloc) && w.written.size() >= 3 && (w.queued_at_cleanup > 0 || ds::stats().switches >= 6);
 }
 
 int main(int argc, char **argv) {
